@@ -11,6 +11,7 @@ CONSTANTS
   FrameLen = 4
   MarkLen = 4
   MutTornMarker = TRUE
+  AsBuiltBareRecover = FALSE
   MutRepairDeep = FALSE
   MaxPre = 3
   MaxMid = 0
